@@ -140,6 +140,20 @@ CHECKS = [
         "note": "Points within 1e-9 of a face are not decided for membership. Trusted: closed-form oracles in the check.",
     },
     {
+        "property_id": "C13",
+        "category": "exploration",
+        "technique": "bounded-exhaustive enumeration of (grid, state kind, noise kind, interpretation, solver) x (dt, steps, seed) against an independent re-implementation driven by a replicated generator",
+        "text": "Every (grid incl. non-uniform cell volumes, state in scalar/vector/tensor/collections, noise in 0/scalar/per-component/"
+        "per-field/field-dependent variance, Ito/Stratonovich/anti-Ito, euler/milstein/semi-implicit) x dt x steps x seeds on the numpy "
+        "backend is compared to 1e-12 with the documented update computed from the replicated generator "
+        "(default_rng(seed).standard_normal once per step): increment, interpretation drift, Milstein correction; the generator "
+        "state after the run must equal exactly one draw per step, seeded runs are bitwise reproducible, zero variance is bitwise "
+        "deterministic; the numba backend is replicated through its seeded RNG (interpreted and 12 really compiled steppers); "
+        "solvers that must refuse noise do refuse.",
+        "note": "make_noise_realization, complex fields, MPI/jax/torch not covered; variances <= 1e-14 are treated as zero by the package "
+        "(observation). " + _MODES,
+    },
+    {
         "property_id": "C14",
         "category": "exploration",
         "technique": "bounded-exhaustive enumeration of grids/fields/collections x all save-restore routes",
@@ -148,6 +162,21 @@ CHECKS = [
         "the MemoryStorage field_attributes round trip; equality of class, bounds incl. inner radius, periodicity, volumes, labels, "
         "dtype and data (bitwise).",
         "note": "float32 collections through copy()/storage read-back yield float64 (documented automatic dtype): recorded as observation.",
+    },
+    {
+        "property_id": "C15",
+        "category": "model_checking",
+        "technique": "explicit-state BFS over operation histories of real field objects vs a buffer/region reference model, with validated state merging and write probes",
+        "text": "BFS over ALL sequences (depth 4 quick / 5 thorough; every type-correct operand choice) of a 44-operation alphabet - "
+        "constructions with/without ghost cells, component views by index and name, collections with copy_fields False/True, "
+        "fc[i]/fc[label]/slices/append/copy, copies incl. dtype change, binary and in-place arithmetic, data assignment, assignment "
+        "into collections, unary ops, operators with/without out, dot/outer, interpolate_to_grid, storage round trips - on 4 grid "
+        "families.  After EVERY transition, for EVERY pair of live handles np.shares_memory and a write probe (unique sentinel written "
+        "through one handle, read through all others) must equal the verdict of a reference model that knows only buffers and "
+        "regions; collection layout (fields in order, components row-major), data-as-view, untouched operands and ghost cells are "
+        "checked.  States are merged on the alias partition; two witnesses of every merged state are expanded and must agree.",
+        "note": "Tiny grids (2 cells per axis); contents are deterministic; complex outer products without out are excluded (TypeError). "
+        "Trusted: numpy, the reference model.",
     },
     {
         "property_id": "C16",
